@@ -296,6 +296,9 @@ DST_CATALOGUE = [("America/Chicago", "2016-10-21", 30, "h"), ("America/Chicago",
                  ("Australia/Sydney", "2021-03-20", 20, "h"), ("Europe/London", "2021-10-15", 25, "D"), ("UTC", "2021-10-15", 25, "h")]
 
 
+DST_FORMS = ["pd.Timestamp", "datetime+pytz", "datetime+zoneinfo"]
+
+
 def replay_dstwin(inp):
     """tz-aware series across a DST change (timezone handling is not modelled by the shim: enumerated, concrete):
     the window is max_days of ELAPSED time from the cut, as for every other input"""
@@ -304,17 +307,30 @@ def replay_dstwin(inp):
     s = pd.Series(np.arange(len(idx), dtype=float), index=idx)
     cut = pd.Timestamp(start, tz=zone)
     pr = []
-    rep, _ = tr.get_reporting_data(s, start=cut, max_days=md)
+    # the documented argument type is datetime.datetime: the same instant may arrive as a pandas Timestamp, as a datetime
+    # localized by pytz, or as a datetime carrying a zoneinfo zone (whose own arithmetic is wall-clock)
+    form = inp.get("form", "pd.Timestamp")
+    arg = cut
+    if form != "pd.Timestamp":
+        import datetime as _dt
+        naive = _dt.datetime.strptime(start, "%Y-%m-%d")
+        if form == "datetime+zoneinfo":
+            from zoneinfo import ZoneInfo
+            arg = naive.replace(tzinfo=ZoneInfo(zone))
+        else:
+            import pytz
+            arg = pytz.timezone(zone).localize(naive)
+    rep, _ = tr.get_reporting_data(s, start=arg, max_days=md)
     if rep.index.min() < cut or rep.index.max() > cut + pd.Timedelta(days=md):
         pr.append(f"reporting window {rep.index.min()} .. {rep.index.max()} exceeds [{cut}, {cut + pd.Timedelta(days=md)}]")
     want = s[(s.index >= cut) & (s.index <= cut + pd.Timedelta(days=md))]
     if len(rep) != len(want):
         pr.append(f"reporting window has {len(rep)} rows, {len(want)} lie within max_days of the start")
-    base, _ = tr.get_baseline_data(s, end=cut, max_days=md)
+    base, _ = tr.get_baseline_data(s, end=arg, max_days=md)
     wantb = s[(s.index <= cut) & (s.index >= cut - pd.Timedelta(days=md))]
     if base.index.max() > cut or base.index.min() < cut - pd.Timedelta(days=md) or len(base) != len(wantb):
         pr.append(f"baseline window {base.index.min()} .. {base.index.max()} ({len(base)} rows) vs expected {len(wantb)} rows within max_days before the end")
-    return bool(pr), f"{zone} {start} max_days={md} freq={freq}: " + "; ".join(pr)
+    return bool(pr), f"{zone} {start} max_days={md} freq={freq}, instant handed over as {form}: " + "; ".join(pr)
 
 
 REPLAY["dstwin"] = replay_dstwin
@@ -322,12 +338,13 @@ REPLAY["dstwin"] = replay_dstwin
 
 def run_dstwin(case):
     for i in range(len(DST_CATALOGUE)):
-        bad, det = replay_dstwin(dict(index=i))
-        if not case.ground(not bad, "windows across a DST change are max_days of elapsed time from the cut (tz-aware catalogue)"):
-            case.violation("windows across a DST change are max_days of elapsed time from the cut (tz-aware catalogue)", "dstwin", dict(index=i), det)
-    case.rep["paths"] += len(DST_CATALOGUE)
-    case.rep["nontrivial_paths"] += len(DST_CATALOGUE)
-    case.sample(dict(ground="tz-aware DST catalogue", entries=DST_CATALOGUE))
+        for form in DST_FORMS:
+            bad, det = replay_dstwin(dict(index=i, form=form))
+            if not case.ground(not bad, "windows across a DST change are max_days of elapsed time from the cut (tz-aware catalogue)"):
+                case.violation("windows across a DST change are max_days of elapsed time from the cut (tz-aware catalogue)", "dstwin", dict(index=i, form=form), det)
+    case.rep["paths"] += len(DST_CATALOGUE) * len(DST_FORMS)
+    case.rep["nontrivial_paths"] += len(DST_CATALOGUE) * len(DST_FORMS)
+    case.sample(dict(ground="tz-aware DST catalogue", entries=DST_CATALOGUE, instant_forms=DST_FORMS))
 
 
 def run_case(case: Case, name: str):
